@@ -212,6 +212,7 @@ class Program:
 
         _canon.METHOD_NAMES = _canon.method_names([t for *_x, t in pending])
         _canon.INIT_ONLY_ATTRS = _canon.init_only_attrs([t for *_x, t in pending])
+        _canon.PLAIN_CONTAINER_ATTRS = _canon.plain_container_attrs([t for *_x, t in pending], _canon.INIT_ONLY_ATTRS)
         for modname, path, rel, src, tree in pending:
             self.modules[modname] = ModuleInfo(modname, path, src, tree=tree, props=self.property_names)
             self.files.append(rel)
